@@ -370,6 +370,13 @@ fn run_cap(c: &CapCase) -> Verdict {
 pub struct SweepCase {
     cancelled: u8,
     completed: u8,
+    /// how many of the cancelled callers get their genuine reply delivered just before they are dropped
+    /// (delivered to the table, caller never polled again) ...
+    #[serde(default)]
+    reply_then_cancel: u8,
+    /// ... and how many get it just after they were dropped (a valid late reply meets an orphaned entry)
+    #[serde(default)]
+    cancel_then_reply: u8,
 }
 fn run_sweep(c: &SweepCase) -> Verdict {
     let rt = tokio::runtime::Builder::new_current_thread().enable_all().build().unwrap();
@@ -401,9 +408,24 @@ fn run_sweep(c: &SweepCase) -> Verdict {
             done.push(tokio::spawn(async move { nd.mgr.send_request(&p, DhtNetworkOperation::Ping).await.is_ok() }));
         }
         tokio::time::sleep(Duration::from_millis(5)).await;
-        for h in &hs {
+        // message ids of the requests in flight, in send order (the first hs.len() belong to the callers to cancel)
+        let ids: Vec<String> = hub.trace().iter().filter_map(|e| match e { Ev::Frame { from, dht: Some(d), .. } if *from == node.tid && d.is_request => Some(d.message_id.clone()), _ => None }).collect();
+        let n_cancel = hs.len();
+        let before = (c.reply_then_cancel as usize) % (n_cancel + 1);
+        let after = (c.cancel_then_reply as usize) % (n_cancel - before + 1);
+        for (i, h) in hs.iter().enumerate() {
+            if i < before && i < ids.len() {
+                // the reply reaches the pending table (the dispatcher runs while we wait), then the caller is dropped
+                hub.inject(&sid, &node.tid, dht_reply(&ids[i], &sid, i as u32, false)).await;
+                tokio::time::sleep(Duration::from_millis(1)).await;
+            }
             h.abort();
         }
+        tokio::task::yield_now().await;
+        for i in before..(before + after).min(ids.len()) {
+            hub.inject(&sid, &node.tid, dht_reply(&ids[i], &sid, i as u32, false)).await;
+        }
+        tokio::time::sleep(Duration::from_millis(2)).await;
         for h in done {
             let _ = h.await;
         }
@@ -412,7 +434,10 @@ fn run_sweep(c: &SweepCase) -> Verdict {
         let _ = node.mgr.send_request(&sid, DhtNetworkOperation::Ping).await;
         let left = node.mgr.verif_active_operations_len();
         if left != 0 {
-            v.fail(format!("{ID}/DhtNetworkManager::send_request/entry-of-a-cancelled-request-left-in-pending-table"), format!("{left} entries remain 2× the timeout after {} callers were cancelled and one more request ran", 1 + c.cancelled % 12));
+            v.fail(format!("{ID}/DhtNetworkManager::send_request/entry-of-a-cancelled-request-left-in-pending-table"), format!("{left} entries remain 2× the timeout after {} callers were cancelled ({before} right after their reply had been delivered, {after} before a late reply arrived) and one more request ran", 1 + c.cancelled % 12));
+        }
+        if before + after > 0 {
+            v.class("reply_meets_cancelled_caller");
         }
         v.nt(true);
         let _ = tokio::time::timeout(Duration::from_secs(5), node.mgr.stop()).await;
@@ -780,8 +805,8 @@ pub fn run(run: &Run) {
     run.prop_f("core", run.tier.pick(12000, 100000), sh, core_case, run_core);
     run.set_rule("core_cap", "3334..3373 concurrent retrieves of 3 queries each against the core-engine table: at most 10 000 pending, queries beyond the cap refused before they are sent, table empty after the timeouts");
     run.prop("core_cap", run.tier.pick(4, 24), 4, any::<u8>().prop_map(|extra| CoreCapCase { extra }), run_core_cap);
-    run.set_rule("sweep", "real clock, request timeout 40 ms: 1..12 DHT callers cancelled mid-request (+0..5 that time out normally), then one more request after 2× the timeout: the pending table must be empty");
-    run.prop("sweep", run.tier.pick(240, 1200), sh, (any::<u8>(), any::<u8>()).prop_map(|(cancelled, completed)| SweepCase { cancelled, completed }), run_sweep);
+    run.set_rule("sweep", "real clock, request timeout 40 ms: 1..12 DHT callers cancelled mid-request - some right after their genuine reply reached the table, some before a late genuine reply arrives - (+0..5 that time out normally), then one more request after 2× the timeout: the pending table must be empty");
+    run.prop("sweep", run.tier.pick(240, 1200), sh, (any::<u8>(), any::<u8>(), prop_oneof![1 => Just(0u8), 2 => any::<u8>()], prop_oneof![1 => Just(0u8), 2 => any::<u8>()]).prop_map(|(cancelled, completed, reply_then_cancel, cancel_then_reply)| SweepCase { cancelled, completed, reply_then_cancel, cancel_then_reply }), run_sweep);
 }
 
 pub fn replay(run: &Run, sub: &str, case: &Value) -> Option<bool> {
